@@ -192,3 +192,85 @@ def run_error_not_dropped(rec, F):
             if not ok:
                 rec.finding(R, "F9.err-flow/%s/%s" % (who, name), "%s records an error in `%s` (inside a callback) but never returns it: the caller gets an ordinary result and the raised error disappears (e.g. list.sort with a comparator that raises hands back an unsorted copy)" % (who, name), loc=fn.loc, fn=fn.path)
     rec.floor(R, "error-carrying locals in natives", n, 30)
+
+
+
+def run_stop_after_failure(rec, F):
+    """A native whose callback runs inside a Rust adaptor (sort_by, retain, ..) cannot leave the adaptor when the
+    callback fails; it parks the failure in a captured Option and must not call back again."""
+    R = rec.rule("F4.err-stop", "in a native's closure that stores a callback failure into a captured Option (get_or_insert / insert / assignment), every call back into Laythe (Hooks::call / call_method) is dominated by the test that this Option is still None: after the first failure the callback is not run again (its frames stay on the fiber for the traceback, an exit() inside it must stop the program there)")
+    n = 0
+    for c in F.all_fns():
+        if c.kind != "Closure" or c.crate != "laythe_lib" or "::test" in c.path:
+            continue
+        cbs = [(bi, t) for bi, t in c.calls() if "hooks::Hooks" in t["f"] and lastseg(t["f"]) in ("call", "call_method")]
+        if not cbs:
+            continue
+        # captured Option slots written here
+        slots = set()
+        for bi, t in c.calls():
+            if "core::option::Option" in t["f"] and lastseg(t["f"]) in ("get_or_insert", "get_or_insert_with", "insert", "replace") and t["args"]:
+                r = c.root_of(t["args"][0])
+                if r[0] == "place" and r[1]["l"] == 1:
+                    k = next((e[1] for e in r[1]["p"] if e[0] == "field"), None)
+                    if k is not None:
+                        slots.add(k)
+        for bi, si, s_ in c.stmts():
+            if s_["d"]["p"] and s_["d"]["l"] == 1 and s_["r"]["k"] in ("agg", "use"):
+                k = next((e[1] for e in s_["d"]["p"] if e[0] == "field"), None)
+                ty = c.locals[1] or ""
+                if k is not None and s_["r"]["k"] == "agg" and "Option::Some" in s_["r"]["adt"]:
+                    slots.add(k)
+        # .. or in a closure nested in this one (`compare(..).unwrap_or_else(|err| { failure.get_or_insert(err); .. })`)
+        for nc in F.closures_of(c):
+            inner = set()
+            for bi, t in nc.calls():
+                if "core::option::Option" in t["f"] and lastseg(t["f"]) in ("get_or_insert", "get_or_insert_with", "insert", "replace") and t["args"]:
+                    r = nc.root_of(t["args"][0])
+                    if r[0] == "place" and r[1]["l"] == 1:
+                        k = next((e[1] for e in r[1]["p"] if e[0] == "field"), None)
+                        if k is not None:
+                            inner.add(k)
+            if not inner:
+                continue
+            for bi, si, s_ in c.stmts():
+                if s_["r"]["k"] == "agg" and s_["r"]["adt"] == "closure:" + nc.path:
+                    for k in inner:
+                        if k < len(s_["r"]["ops"]):
+                            r = c.root_of(s_["r"]["ops"][k])
+                            if r[0] == "place" and r[1]["l"] == 1:
+                                kk = next((e[1] for e in r[1]["p"] if e[0] == "field"), None)
+                                if kk is not None:
+                                    slots.add(kk)
+        if not slots:
+            continue
+        n += 1
+        for bi, t in cbs:
+            gs = sem.dominating_guards(F, c, bi)
+            ok = False
+            for w, d, outc in gs:
+                sd = str(d)
+                on = c.blocks[w]["t"]["on"]
+                r = c.root_of(on)
+                # is_some()/is_none() on the captured slot, or a match on it
+                tgt = None
+                if r[0] == "call" and lastseg(r[1]["f"]) in ("is_some", "is_none") and r[1]["args"]:
+                    rr = c.root_of(r[1]["args"][0])
+                    if rr[0] == "place" and rr[1]["l"] == 1:
+                        tgt = (lastseg(r[1]["f"]), next((e[1] for e in rr[1]["p"] if e[0] == "field"), None))
+                    if tgt and tgt[1] in slots and ((tgt[0] == "is_some" and outc is False) or (tgt[0] == "is_none" and outc is True)):
+                        ok = True
+                if d[0] == "discr" and outc == "None":
+                    sv = sem.switch_variants(F, c, w)
+                    if sv and sv[2]["l"] == 1 and any(e[0] == "field" and e[1] in slots for e in sv[2]["p"]):
+                        ok = True
+                    elif sv:
+                        rr = c.root_of({"copy": sv[2]})
+                        if rr[0] == "place" and rr[1]["l"] == 1 and any(e[0] == "field" and e[1] in slots for e in rr[1]["p"]):
+                            ok = True
+            who = c.path.split("::")[-2] if "::" in c.path else c.path
+            who = re.sub(r"^.*<(.+?) as .*$", r"\1", c.path).split("::")[-1] if " as " in c.path else who
+            rec.inst(R, "%s: callback only while no failure is recorded" % who, ok=ok, loc=loc_of(t["sp"]))
+            if not ok:
+                rec.finding(R, "F4.err-stop/%s" % who, "%s keeps calling its callback after a failure was recorded: the error reported is still the first one, but every later call stacks the frames of another failed callback on the fiber (the traceback and e.backTrace show calls that happened after the error) and an exit() inside the callback does not stop the program" % who, loc=loc_of(t["sp"]), fn=c.path)
+    rec.floor(R, "adaptor closures that park a callback failure", n, 1)
